@@ -19,7 +19,7 @@ mod probe;
 mod polling;
 #[cfg(feature = "cfg_std")]
 mod scanners;
-#[cfg(feature = "cfg_std")]
+#[cfg(feature = "cfg_serde")]
 mod serde_t;
 mod generated {
     pub mod consts;
@@ -38,10 +38,10 @@ pub fn exec(tag: i64, inp: &[i64]) -> Vec<i64> {
         70 | 71 | 80 => cc14::exec(tag, inp),
         90 | 100 | 101 | 110 => nrpn::exec(tag, inp),
         #[cfg(feature = "cfg_std")]
-        120 | 130 | 131 | 132 | 140 => polling::exec(tag, inp),
+        120 | 130 | 131 | 132 | 133 | 140 => polling::exec(tag, inp),
         #[cfg(feature = "cfg_std")]
         150 | 160 | 161 | 162 | 170 => scanners::exec(tag, inp),
-        #[cfg(feature = "cfg_std")]
+        #[cfg(feature = "cfg_serde")]
         190 | 191 => serde_t::exec(tag, inp),
         _ => vec![-97],
     }
@@ -72,7 +72,7 @@ fn gen(prop: &str, tier: Tier, seed: u64, em: &mut Emitter) {
         "C16" => scanners::gen_c16(tier, seed, em),
         #[cfg(feature = "cfg_std")]
         "C17" => scanners::gen_c17(tier, seed, em),
-        #[cfg(feature = "cfg_std")]
+        #[cfg(feature = "cfg_serde")]
         "C19" => serde_t::gen_c19(tier, seed, em),
         _ => {
             eprintln!("unknown property {}", prop);
